@@ -51,7 +51,8 @@ recursion through `List Tmpl`), so closed instances reduce by `decide`.
              element children (`element_children_to_tokens`).
 * `expHtmlAsync`, `expKidsHtmlAsync`, `macroHtmlStream` — the streaming entry points (`to_html_async_with_buf`).
 * `expHtml`, `expKidsHtml`, `macroHtml` — `to_html()` of that expansion: `HtmlElement::to_html_with_buf`,
-             strings (Model/Html `textHtml`), `InertElement::to_html_with_buf` (tachys/src/html/mod.rs:
+             strings (Model/Html `textHtml`), the `<textarea>` body through Model/Html `elemBody` (7006223 / 01b809d),
+             `InertElement::to_html_with_buf` (tachys/src/html/mod.rs:
              pushes the string, position := NextChild).
 
 ## Part 4 — what a template denotes, and normalisation of parsed documents
@@ -219,15 +220,28 @@ def inertAttrs : List TAttr → Str
   | [] => []
   | a :: r => inertAttr a ++ inertAttrs r
 
+/-- are all children text literals?  (the `<textarea>` case of the printer, fix-c18-5) -/
+def allLits : List Tmpl → Bool
+  | [] => true
+  | .text _ :: r => allLits r
+  | _ => false
+
+def litConcat : List Tmpl → Str
+  | .text s :: r => s ++ litConcat r
+  | _ => []
+
 mutual
-/-- `Item::Node(node, escape)` … `Item::ClosingTag` -/
+/-- `Item::Node(node, escape)` … `Item::ClosingTag`.  A `<textarea>` whose children are all text is printed like
+tachys prints it since 7006223 / 01b809d (`textareaBody`: entity-escaped, leading line feed doubled, no
+placeholder for the empty string) — fix-c18-5. -/
 def inertNodeHtml (escape : Bool) : Tmpl → Str
   | .text s => (if s = [] ∧ escape = true then [' '] else []) ++ (if escape then escapeText s else s)
   | .block _ => []
   | .elem tag attrs kids =>
     '<' :: tag ++ inertAttrs attrs ++ '>' ::
       (if macroIsVoid tag then []
-       else inertKidsHtml (macroEscapes tag) kids ++ '<' :: '/' :: tag ++ ['>'])
+       else (if tag = tTextarea ∧ allLits kids = true then textareaBody true true (litConcat kids)
+             else inertKidsHtml (macroEscapes tag) kids) ++ '<' :: '/' :: tag ++ ['>'])
   | .frag _ => []
   | .comp kids =>
     '<' :: sWrap ++ '>' :: (inertKidsHtml (macroEscapes sWrap) kids ++ '<' :: '/' :: sWrap ++ ['>'])
@@ -273,6 +287,27 @@ def inertKidsHtmlOld (escape : Bool) : List Tmpl → Str
 end
 
 def inertHtmlOld (t : Tmpl) : Str := inertNodeHtmlOld true t
+
+mutual
+/-- the printer before fix-c18-5 (textarea text raw, like the other no-escape elements) -/
+def inertNodeHtmlOld5 (escape : Bool) : Tmpl → Str
+  | .text s => (if s = [] ∧ escape = true then [' '] else []) ++ (if escape then escapeText s else s)
+  | .block _ => []
+  | .elem tag attrs kids =>
+    '<' :: tag ++ inertAttrs attrs ++ '>' ::
+      (if macroIsVoid tag then []
+       else inertKidsHtmlOld5 (macroEscapes tag) kids ++ '<' :: '/' :: tag ++ ['>'])
+  | .frag _ => []
+  | .comp kids =>
+    '<' :: sWrap ++ '>' :: (inertKidsHtmlOld5 (macroEscapes sWrap) kids ++ '<' :: '/' :: sWrap ++ ['>'])
+  | .comment _ => []
+  | .doctype => []
+def inertKidsHtmlOld5 (escape : Bool) : List Tmpl → Str
+  | [] => []
+  | t :: ts => inertNodeHtmlOld5 escape t ++ inertKidsHtmlOld5 escape ts
+end
+
+def inertHtmlOld5 (t : Tmpl) : Str := inertNodeHtmlOld5 true t
 
 /-! ## Part 3 — the builder path -/
 
@@ -349,7 +384,7 @@ def expHtml (escape : Bool) (pos : Pos) : Exp → Str
   | .elem tag attrs kids =>
     '<' :: tag ++ attrsHtml attrs ++ '>' ::
       (if isVoid tag then []
-       else expKidsHtml (escapeChildren tag) .firstChild kids ++ '<' :: '/' :: tag ++ ['>'])
+       else elemBody tag (expKidsHtml (escapeChildren tag) .firstChild kids) ++ '<' :: '/' :: tag ++ ['>'])
 def expKidsHtml (escape : Bool) (pos : Pos) : List Exp → Str
   | [] => []
   | e :: es => expHtml escape pos e ++ expKidsHtml escape (expPosAfter e) es
@@ -371,7 +406,7 @@ def expHtmlAsync (ooo escape : Bool) (pos : Pos) : Exp → Str
   | .elem tag attrs kids =>
     ('<' :: tag ++ attrsHtml attrs ++ ['>']) ++
       (if isVoid tag then []
-       else expKidsHtmlAsync ooo (escapeChildren tag) .firstChild kids ++ ('<' :: '/' :: tag ++ ['>']))
+       else elemBody tag (expKidsHtmlAsync ooo (escapeChildren tag) .firstChild kids) ++ ('<' :: '/' :: tag ++ ['>']))
 def expKidsHtmlAsync (ooo escape : Bool) (pos : Pos) : List Exp → Str
   | [] => []
   | e :: es => expHtmlAsync ooo escape pos e ++ expKidsHtmlAsync ooo escape (expPosAfter e) es
